@@ -10,7 +10,10 @@
 (* file of a page with open('wb') (writer.py:92 summary pages, :122 object *)
 (* pages) - the old content is dropped - and flattenToFile (writer.py:21)  *)
 (* writes the DOCTYPE and the rendering.  Pages of objects that no longer  *)
-(* exist are not removed.                                                  *)
+(* exist are not removed.  An object hidden by a --privacy=HIDDEN rule     *)
+(* (and everything below it) is skipped BEFORE its file is opened:         *)
+(* _writeDocsFor starts with `if not ob.isVisible: return` (writer.py:119)  *)
+(* - no file, not an empty one.                                            *)
 (*                                                                         *)
 (* A file is a sequence of segments [v, from, to]: bytes from..to of the   *)
 (* rendering of the page in version v.  WriteMode = "truncate" is what the *)
@@ -30,11 +33,17 @@ CONSTANTS MaxRuns,     \* length of the histories explored
 (* The project universe (harness: HISTORY_VERSIONS).  Pages:                *)
 (*   1 index.html (package)  2 module page  3 page of class Worker          *)
 (*   4 page of class Extra (only in the long version)  5 nameIndex.html     *)
-(* Size[v][p] = relative length of the rendering, 0 = not written in v.     *)
+(*   6 module hpkg.hid, 7 class hpkg.mod.Secret, 8 class Secret.Inner       *)
+(*     nested in it: 6 and 7 are hidden by --privacy=HIDDEN rules in every  *)
+(*     run, 8 is below a hidden object                                      *)
+(* Size[v][p] = relative length of the rendering, 0 = not part of v.        *)
 Versions == {"long", "short"}
-Pages == 1..5
-Size == [long  |-> <<2, 2, 2, 2, 2>>,
-         short |-> <<1, 1, 1, 0, 1>>]
+Pages == 1..8
+Size == [long  |-> <<2, 2, 2, 2, 2, 2, 2, 2>>,
+         short |-> <<1, 1, 1, 0, 1, 1, 1, 1>>]
+Hidden == {6, 7}          \* objects matched by a HIDDEN rule
+Below == [p \in Pages |-> IF p = 8 THEN {7} ELSE {}]      \* ancestors that have a page of their own
+Visible(p) == p \notin Hidden /\ Below[p] \cap Hidden = {}
 
 VARIABLES hist,   \* versions built so far, in order
           dir     \* page -> content (sequence of segments); <<>> = no such file
@@ -52,7 +61,7 @@ Behind(c, n) == IF c = <<>> THEN <<>>
 
 \* TemplateWriter.writeIndividualFiles / writeSummaryPages for version v
 WritePage(v, p, old) ==
-  IF Size[v][p] = 0 THEN old                                   \* not part of this version: the file stays
+  IF Size[v][p] = 0 \/ ~Visible(p) THEN old                    \* not part of this version / hidden: no open()
   ELSE IF WriteMode = "truncate" THEN Whole(v, p)              \* open('wb')
   ELSE Whole(v, p) \o Behind(old, Size[v][p])                  \* seek(0); write(); no truncate()
 
@@ -68,7 +77,7 @@ Spec == Init /\ [][Next]_vars
 WholePages == \A p \in Pages : dir[p] = <<>> \/ \E v \in Versions : dir[p] = Whole(v, p)
 \* and the pages of the version built last are the pages a fresh directory would hold
 LastRunFresh == hist = <<>> \/ LET v == hist[Len(hist)] IN
-                  \A p \in Pages : Size[v][p] > 0 => dir[p] = Whole(v, p)
+                  \A p \in Pages : (Size[v][p] > 0 /\ Visible(p)) => dir[p] = Whole(v, p)
 
 Emit == hist # <<>> =>
   PrintT(ToJson([hist |-> hist,
